@@ -55,7 +55,7 @@ func callChainOrder(c *core.Check, r *core.Rule, fn *ssa.Function, names []strin
 
 func c09(c *core.Check) {
 	p := c.Prog
-	c.Explain = "Thin structural clauses of box generation: the display → box class table of boxes.makeBox is the CSS Display table and covers every display value the validator and the display computer can produce; the anonymous-box passes run in the required order (table fix-up, flex and grid blockification, inline-in-block, block-in-inline). What each rewriting pass does to the tree is not decided. Also decided: (R7) the slot assignment of wrapTable (shared with C13.R2); (R8) the box classes tested by the anonymous-box passes are those CSS 2.1 names."
+	c.Explain = "Thin structural clauses of box generation: the display → box class table of boxes.makeBox is the CSS Display table and covers every display value the validator and the display computer can produce; the anonymous-box passes run in the required order (table fix-up, flex and grid blockification, inline-in-block, block-in-inline). What each rewriting pass does to the tree is not decided. Also decided: (R7) the slot assignment of wrapTable (shared with C13.R2); (R8) the box classes tested by the anonymous-box passes are those CSS 2.1 names. Also decided: (R11) the anonymous table pass loses no box and hands on unwrapped only what passed the test of the rule applied."
 	r1 := c.Rule("R1", "boxes.makeBox maps each (outside, inside) display pair and each table-* keyword to the box class of the CSS Display table, and every display value validation.display / tree.display can produce has a row (or is none)", 33)
 	mb := p.Fn("html/boxes", "makeBox")
 	vd := p.Fn("css/validation", "display")
